@@ -73,6 +73,10 @@ func (cr *concRun) oneTxn(g int, r *rand.Rand, shape string) {
 		eng.H.InFlight.Add(-1)
 		return c, r
 	}
+	if shape == "closure" {
+		cr.closureTxn(g, r, rec)
+		return
+	}
 	var tx *originium.Txn
 	rec.BeginCall, rec.BeginRet = call(func() { tx = cr.db.Begin(update) })
 	buf := map[int]int32{}
@@ -178,7 +182,61 @@ func (cr *concRun) oneTxn(g int, r *rand.Rand, shape string) {
 	cr.mu.Unlock()
 }
 
-var concShapes = []string{"rmw", "skew", "audit", "blind", "multi", "random", "random", "audit"}
+// closureTxn runs a whole transaction through DB.View / DB.Update (Begin and Commit happen inside).
+func (cr *concRun) closureTxn(g int, r *rand.Rand, rec *hTxn) {
+	nk := len(cr.keys)
+	rec.Update = r.Intn(3) > 0
+	failOnPurpose := rec.Update && r.Intn(6) == 0
+	errFail := errors.New("closure failed on purpose")
+	buf := map[int]int32{}
+	fn := func(tx *originium.Txn) error {
+		rec.BeginRet = cr.clock.Add(1)
+		for i := 0; i < 1+r.Intn(4); i++ {
+			k := r.Intn(nk)
+			if rec.Update && r.Intn(2) == 0 {
+				id, v := cr.newValue(r)
+				tx.Set(cr.keys[k], v)
+				buf[k] = id
+				rec.Writes = append(rec.Writes, hWrite{K: k, V: id})
+			} else {
+				at := cr.clock.Add(1)
+				got, ok := tx.Get(cr.keys[k])
+				_, own := buf[k]
+				rec.Reads = append(rec.Reads, hRead{K: k, V: cr.idOf(got, ok), Own: own && rec.Update, At: at})
+			}
+		}
+		rec.EndCall = cr.clock.Add(1)
+		if failOnPurpose {
+			return errFail
+		}
+		return nil
+	}
+	eng.H.InFlight.Add(1)
+	rec.BeginCall = cr.clock.Add(1)
+	var err error
+	if rec.Update {
+		err = cr.db.Update(fn)
+	} else {
+		err = cr.db.View(fn)
+	}
+	rec.EndRet = cr.clock.Add(1)
+	eng.H.InFlight.Add(-1)
+	switch {
+	case failOnPurpose && errors.Is(err, errFail):
+		rec.Outcome = "closure-error"
+	case err == nil:
+		rec.Outcome = "committed"
+	case errors.Is(err, originium.ErrConflictTxn):
+		rec.Outcome = "conflict"
+	default:
+		rec.Outcome = "error:" + err.Error()
+	}
+	cr.mu.Lock()
+	cr.txns = append(cr.txns, rec)
+	cr.mu.Unlock()
+}
+
+var concShapes = []string{"closure", "rmw", "skew", "audit", "blind", "multi", "random", "random", "audit"}
 
 type concOutcome struct {
 	txns        []*hTxn
